@@ -40,3 +40,58 @@ def tree_info():
     except Exception:
         head, dirty = "unknown", None
     return {"src": SRC, "git_head": head, "dirty": dirty}
+
+
+# ---------------------------------------------------------------- run isolation
+# A simulated run must not see what an earlier run in the same OS process left
+# behind in the package's module-level state (a cache dictionary, a "last
+# used" global...): otherwise a run is no longer a pure function of its choice
+# sequence.  Before every run the data globals of all loaded pyyeti.* modules
+# are put back to (copies of) the values they had right after import.
+
+import copy as _copy
+import types as _types
+
+_NOT_DATA = (_types.FunctionType, _types.BuiltinFunctionType, _types.ModuleType, type, _types.MethodType)
+_IMMUTABLE = (type(None), bool, int, float, complex, str, bytes, frozenset)
+_pristine = {}
+
+
+def _is_data(k, v):
+    return not (k.startswith("__") and k.endswith("__")) and not isinstance(v, _NOT_DATA)
+
+
+def _fresh(v):
+    if isinstance(v, _IMMUTABLE):
+        return v
+    try:
+        return _copy.deepcopy(v)
+    except Exception:
+        return v
+
+
+_sizes = {}
+_modlist = [None, -1]
+
+
+def reset_module_state():
+    if _modlist[1] != len(sys.modules):
+        _modlist[0] = [n for n in sorted(sys.modules) if (n == "pyyeti" or n.startswith("pyyeti.")) and sys.modules[n] is not None]
+        _modlist[1] = len(sys.modules)
+    for name in _modlist[0]:
+        md = vars(sys.modules[name])
+        base = _pristine.get(name)
+        if base is None:
+            _pristine[name] = {k: _fresh(v) for k, v in md.items() if _is_data(k, v)}
+            _sizes[name] = len(md)
+            continue
+        if len(md) != _sizes[name]:
+            for k in [k for k, v in md.items() if k not in base and _is_data(k, v)]:
+                del md[k]
+        for k, v in base.items():
+            if isinstance(v, _IMMUTABLE):
+                if md.get(k, base) is not v:
+                    md[k] = v
+            else:
+                md[k] = _fresh(v)
+        _sizes[name] = len(md)
